@@ -11,6 +11,7 @@ CONSTANTS
   AuctionImpl = "intended"
   Resolution = "locked"
   MaxRounds = 3
+  ErrKinds <- ErrKindsOne
 INVARIANTS TypeOKC11 CallsProgressSlotLeaky
 
 CHECK_DEADLOCK FALSE
